@@ -19,6 +19,8 @@ META = {
     "assumptions": [],
 }
 META["explanation"] += " R08.4 no value owning the broadcast Sender (the ObservableVector, the Sender) is handed to mem::forget / ManuallyDrop::new / Box::leak / into_raw: the channel is closed by the Sender's destructor."
+META["explanation"] += ' none-sites: a per-arm result local (`let item = match .. { Closed => None, .. }`) is judged like a direct return; only a `let mut x = None` whose initialisation dominates another write is an accumulator.'
+META["explanation"] += ' Shared in im_core: R06.7 (a Pending built after re-arming the receive future without polling it loses the wake-up and the end of the stream).'
 
 RECV = r"broadcast::Receiver::<.*>::(try_recv|recv)$|ReusableBoxRecvFuture::<.*>::poll$|ReusableBoxFuture::<.*>::poll$"
 
@@ -60,8 +62,9 @@ def none_sites(body):
     for loc, s in body.iter_stmts():
         if s["k"] == "assign" and s["rv"]["k"] == "agg" and s["rv"].get("adt") == "std::option::Option" and s["rv"]["variant"] == "None":
             l = s["place"]["l"]
-            if not s["place"]["proj"] and len(whole.get(l, [])) > 1 and body.locals[l]["name"]:
-                continue  # `let mut msg = None;` accumulator that is overwritten later
+            if not s["place"]["proj"] and len(whole.get(l, [])) > 1 and body.locals[l]["name"] and \
+                    any(d[0] != loc and body.dominates(loc[0], d[0][0]) for d in whole.get(l, [])):
+                continue  # `let mut msg = None;` accumulator that is overwritten later (its initialisation dominates another write)
             ty = body.locals[l]["ty"]
             out.append((loc, ty))
     return out
